@@ -166,6 +166,10 @@ def impl_trace(case):
     return tr
 
 
+def _work(item):
+    return impl_ctor(item) if "lists" in item else impl_trace(item)
+
+
 def impl_ctor(case):
     """constructor from edge lists; returns (raised, observation or None)"""
     cls = _cls(case["cls"])
@@ -704,9 +708,15 @@ def run(ctx):
                       "networkx reports an undirected-kind entry as (lo, hi) when nodes were inserted in increasing order",
                       "additions with edge_type='all' are a recorded known finding; after one the graph is no longer "
                       "Good and only the correspondence (not the invariant) is compared until it is Good again"]
+    phase = ev.extra.setdefault("phase_s", {})
+    t0 = time.time()
     spec = SpecTables()
+    phase["spec_tables"] = round(time.time() - t0, 2)
+    t0 = time.time()
     tie = translator_tie(ctx, spec)
+    phase["translator_tie"] = round(time.time() - t0, 2)
     ev.extra["theorems_rechecked_against_current_source"] = tie
+    t0 = time.time()
 
     # ---- corpus first
     cases = [c for c in C.load_corpus(PID) if "ops" in c]
@@ -719,9 +729,14 @@ def run(ctx):
     ts_cases = list(gen_ts(ctx, 1200 if tier == "quick" else 20000))
     ctor_cases += list(gen_ctor(ctx, spec, 600 if tier == "quick" else 8000))
 
-    # ---- histories with a model
-    answers = C.lean_batch([run_line(c) for c in cases])
-    traces = C.pmap(impl_trace, cases, chunksize=128)
+    # ---- one parallel pass over everything that runs the implementation, one batch for the model
+    results = C.pmap(_work, cases + ts_cases + ctor_cases, chunksize=256)
+    answers = C.lean_batch([run_line(c) for c in cases] + [ctor_line(c) for c in ctor_cases])
+    traces, ts_traces, cres = (results[:len(cases)], results[len(cases):len(cases) + len(ts_cases)],
+                               results[len(cases) + len(ts_cases):])
+    cans = answers[len(cases):]
+    phase["run_impl_and_model"] = round(time.time() - t0, 2)
+    t0 = time.time()
     bad_v, bad_c = [], []
     for case, tr, ans in zip(cases, traces, answers):
         kind, detail = classify(ctx, spec, case, tr, parse_model(ans))
@@ -730,17 +745,16 @@ def run(ctx):
         elif kind == "corr":
             bad_c.append((case, detail))
     # ---- time-series classes (spec only)
-    for case, tr in zip(ts_cases, C.pmap(impl_trace, ts_cases, chunksize=128)):
+    for case, tr in zip(ts_cases, ts_traces):
         kind, detail = classify(ctx, spec, case, tr, False)
         if kind == "violation":
             bad_v.append((case, detail))
     # ---- constructors
-    cans = C.lean_batch([ctor_line(c) for c in ctor_cases])
-    cres = C.pmap(impl_ctor, ctor_cases, chunksize=128)
     for case, (raised, obs), m in zip(ctor_cases, cres, cans):
         r = judge_ctor(ctx, spec, case, raised, obs, m)
         if r:
             (bad_v if r[0] == "violation" else bad_c).append((case, r[1]))
+    phase["judge"] = round(time.time() - t0, 2)
     ev.extra["exhaustive_part"] = ("all 64 (PAG, AugmentedPAG) / 8 (CPDAG) pair states x every single call and x every "
                                    "ordered pair of single calls; every one-pair constructor argument")
     ev.extra["disagreements"] = {"violations": len(bad_v), "correspondence_only": len(bad_c)}
